@@ -75,6 +75,14 @@ func LoadMain(seed int64, outFile string) {
 			behave(r.PathParam("id"), func() { r.OK(nil) }, func() { r.InvalidParams("no") })
 		}))
 	s.Handle("noacc.$id", res.GetModel(func(r res.ModelRequest) { r.Model(map[string]int{"v": 2}) }))
+	hotCall := res.Call("m", func(r res.CallRequest) {
+		if string(r.RawParams()) == `"slow"` {
+			time.Sleep(8 * time.Millisecond)
+		}
+		r.OK(nil)
+	})
+	s.Handle("hot.$id", hotCall)
+	s.Handle("hotg.$id", hotCall, res.Group("hotgrp"))
 	s.Handle("slow", res.Call("m", func(r res.CallRequest) { time.Sleep(15 * time.Millisecond); r.OK(nil) }), res.Group("slowgrp"))
 	s.Handle("slow2.$id", res.Call("m", func(r res.CallRequest) { time.Sleep(15 * time.Millisecond); r.OK(nil) }))
 
@@ -174,6 +182,32 @@ func LoadMain(seed int64, outFile string) {
 				time.Sleep(200 * time.Microsecond)
 			}
 		}
+		// hot phase (judged): several hundred requests queue up behind one slow request of the same
+		// resource (life 1) or of the same worker group spread over many resources (life 2)
+		var hot []loadReq
+		if life <= 2 {
+			name := func(k int) string {
+				if life == 1 {
+					return "call.test.hot.1.m"
+				}
+				return fmt.Sprintf("call.test.hotg.%d.m", k%7)
+			}
+			first := loadReq{Life: life, Subj: name(0), Inbox: fmt.Sprintf("inbox.l%d.hot0", life), Kind: "answer"}
+			hot = append(hot, first)
+			conn.Deliver(first.Subj, first.Inbox, []byte(`{"params":"slow"}`))
+			n := 200 + rng.Intn(200)
+			for k := 1; k <= n; k++ {
+				h := loadReq{Life: life, Subj: name(k), Inbox: fmt.Sprintf("inbox.l%d.hot%d", life, k), Kind: "answer"}
+				hot = append(hot, h)
+				conn.Deliver(h.Subj, h.Inbox, nil)
+			}
+			deadline := time.Now().Add(8 * time.Second)
+			for _, r := range hot {
+				for !isDone(r.Inbox) && time.Now().Before(deadline) {
+					time.Sleep(200 * time.Microsecond)
+				}
+			}
+		}
 		// burst phase: keep every worker busy, queue more work behind them, stop the service
 		var burst []loadReq
 		if life < lives {
@@ -202,7 +236,7 @@ func LoadMain(seed int64, outFile string) {
 		case <-time.After(5 * time.Second):
 			fatal(fmt.Sprintf("Serve did not return in life %d", life))
 		}
-		for _, r := range append(reqs, burst...) {
+		for _, r := range append(append(reqs, hot...), burst...) {
 			r.N = len(conn.PubsOn(r.Inbox))
 			r.Done = isDone(r.Inbox)
 			all = append(all, r)
